@@ -16,6 +16,7 @@ CHECKS = {
             ("R-TABIDX.digit", "r_tables", "run_digit_index", ("quick", "thorough"))],
     "C16": [("R-TABLES.c16", "r_tables", "run_c16", ("quick", "thorough"))],
     "C10": [("R-TABLES.logic", "r_tables", "run_logic", ("quick", "thorough"))],
+    "C18": [("R-PRINTF", "r_printf", "run", ("quick", "thorough"))],
     "C19": [("R-RANDCOV", "r_rand", "run", ("quick", "thorough"))],
     "C20": [("R-CXXALIAS", "r_cxx", "run", ("quick", "thorough"))],
     "C01": [("R-CONTRACT", "r_contract", "run", ("quick", "thorough")),
@@ -49,6 +50,7 @@ RULES = {
     "R-CONTRACT": ("r_contract", "run"),
     "R-CXXALIAS": ("r_cxx", "run"),
     "R-RANDCOV": ("r_rand", "run"),
+    "R-PRINTF": ("r_printf", "run"),
     "R-ALIAS": ("r_alias", "run"),
     "R-ALIAS.mem": ("r_alias", "run_mem"),
     "R-TABIDX.digit": ("r_tables", "run_digit_index"),
@@ -86,6 +88,12 @@ EXPLANATION = {
     "C10": "Exhaustive (4 rows x 9 kernels) truth tables of the per-limb operator of the mpn logical functions, read off the "
            "typed AST of the kernels / MPN_LOGOPS_N_INLINE uses.  Narrow: the mpz-level two's-complement handling, scans and "
            "popcounts are value properties and are not decided.",
+    "C18": "Structural clauses of the formatted-I/O layer: (tables) the 5 printf and 2 scanf function tables have every slot their "
+           "consumers call unconditionally; (snprintf) every write through gmp_snprintf_t::buf is dominated by a space test, bounded by "
+           "MIN (size - 1, x) and the cursor / remaining-size updates are paired - the 'gmp_snprintf never writes more than size bytes' "
+           "clause, for all buffer sizes; (asprintf / scanf buffers) allocator size agreement and pairing in printf/ and scanf/ "
+           "(R-ALLOC.size with the buf/alloc invariant).  Flag / width / precision layout and byte-identity with the C library are "
+           "value properties and are NOT decided.",
     "C19": "Narrow structural clause of 'a state and its gmp_randinit_set copy produce the same sequence': every generator function table has "
            "its get / clear / iset slots (seed may be absent only in the noseed table), each iset function writes EVERY field of the "
            "generator's private state struct (arrays completely) and installs the function table and state pointer, and clear frees the "
@@ -153,6 +161,9 @@ ASSUMPTIONS = {
     "R-RANDCOV": ["generator tables are read from the linked IR; state structs and iset/clear bodies from the typed AST of rand*.c",
                   "a field counts as copied when it is assigned through the freshly allocated state pointer (or passed as a destination); array "
                   "fields need literal indices covering the array or a loop whose constant bound equals the array length"],
+    "R-PRINTF": ["the snprintf clause recognises the backend's own idioms: n = MIN (d->size - 1, x), avail = d->size, tests d->size > 1 / >= 1",
+                 "asprintf buffer: buf holds `alloc` bytes (struct invariant used by R-ALLOC.size)",
+                 "conversion-character coverage and byte-identity with the C library are not decided"],
     "R-ALIAS": ["alias model of the manual: an output may be the same variable as any input of its type, two outputs are distinct, locals alias nothing; "
                 "static helpers inherit the aliasing their call sites in the unit can produce",
                 "public callees handle overlap between their own operands (the same rules applied to them)",
